@@ -27,8 +27,8 @@ def _deep_strategy(tier):
 
 
 PARTS = {"machine": {"check": make_check({"C01"}, _nt), "strategy": _strategy,
-                     "budget": {"quick": 3000, "thorough": 100000}},
-         "deep": {"check": make_check({"C01"}, _nt), "strategy": _deep_strategy, "budget": {"quick": 2000, "thorough": 60000}}}
+                     "budget": {"quick": 3000, "thorough": 60000}},
+         "deep": {"check": make_check({"C01"}, _nt), "strategy": _deep_strategy, "budget": {"quick": 2000, "thorough": 40000}}}
 
 PARTS["fuzz"] = fuzz_part("C01", {"C01"}, _nt)
 
